@@ -4,8 +4,8 @@ from gen_util import *
 from srp_cases import *
 import pyref, struct
 
-MODULES = ["WowSrp.Props.C15", "WowSrp.Props.SourceLayout"]
-THEOREMS = ["C15_salt", "C15_login_challenge", "C15_reconnect_refresh", "C15_client_challenge", "C15_seed", "C15_private_key_value", "C15_server_private_key", "C15_client_private_key", "C15_uniform_constants", "C15_digits_exact", "C15_digits", "source_constants_complete"]
+MODULES = ["WowSrp.Props.C15"]
+THEOREMS = ["C15_salt", "C15_login_challenge", "C15_reconnect_refresh", "C15_client_challenge", "C15_seed", "C15_private_key_value", "C15_server_private_key", "C15_client_private_key", "C15_uniform_constants", "C15_digits_exact", "C15_digits"]
 RULE = ("every documented call site with injected draws: the bytes consumed (count checked via the ~n suffix) and the value produced must be the "
         "documented injective function of exactly those bytes (identity for salts/challenges/seeds, g^(LE of all 32 bytes) for private keys, accepted "
         "samples for card digits), compared with an independent computation; single-byte changes of a draw at every position change the output; "
